@@ -528,6 +528,7 @@ func (ex *Exec) applyFramed(st *State, ms *ModSet, refs map[string][]Term, preAl
 		st.log = append(st.log, fmt.Sprintf("(assert (forall ((%s Int)) (! (=> %s (= (select %s %s) (select %s %s))) :pattern ((select %s %s)))))",
 			r, and(guard...).S, nv.S, r, old.S, r, nv.S, r))
 		st.heap.m[c] = nv
+		st.pendingBound = append(st.pendingBound, c)
 	}
 }
 
